@@ -800,6 +800,7 @@ def sp_dct(x, type=2, n=None, axis=-1, norm=None, overwrite_x=False):
     count('scipy.fftpack.dct')
     if type != 1 or n is not None or norm is not None:
         raise Unmodelled('dct other than type 1, unnormalised')
+    x_arg = x
     x = _obj(x)
     N = x.shape[axis]
     xm = _np.moveaxis(x, axis, 0)
@@ -809,6 +810,8 @@ def sp_dct(x, type=2, n=None, axis=-1, norm=None, overwrite_x=False):
         for j in range(1, N - 1):
             acc = acc + xm[j] * (_trig_table('cos', j * k, N - 1) * 2)
         out[k] = acc
+    if overwrite_x:
+        _poison(x_arg, 'x')          # documented contract: the contents of x may be destroyed
     return _np.moveaxis(out, 0, axis)
 
 
@@ -816,6 +819,7 @@ def sp_dst(x, type=2, n=None, axis=-1, norm=None, overwrite_x=False):
     count('scipy.fftpack.dst')
     if type != 1 or n is not None or norm is not None:
         raise Unmodelled('dst other than type 1, unnormalised')
+    x_arg = x
     x = _obj(x)
     N = x.shape[axis]
     xm = _np.moveaxis(x, axis, 0)
@@ -826,6 +830,8 @@ def sp_dst(x, type=2, n=None, axis=-1, norm=None, overwrite_x=False):
             t = xm[j] * (_trig_table('sin', (j + 1) * (k + 1), N + 1) * 2)
             acc = t if acc is None else acc + t
         out[k] = acc
+    if overwrite_x:
+        _poison(x_arg, 'x')          # documented contract: the contents of x may be destroyed
     return _np.moveaxis(out, 0, axis)
 
 
